@@ -390,6 +390,23 @@ def unresolved_names(diags):
     return out
 
 
+def blocks_that_do_not_compile(unit, diags):
+    """names of `//@block` functions inside which the compiler (not the verifier) reports an error; empty unless EVERY compiler
+    error of the unit lies inside such a block (then leaving those blocks out lets the rest of the unit be decided)"""
+    out = set()
+    for d in diags:
+        if d.get('level') != 'error' or not (d.get('code') or {}).get('code'):
+            continue
+        prim = next((s_ for s_ in d.get('spans', []) if s_.get('is_primary')), None)
+        c = unit.chunk_at(prim['byte_start']) if prim else None
+        fn = (c.origin.get('fn') if c else None)
+        info = unit.fns.get(fn) if fn else None
+        if not info or not str(info.get('path') or '').split(' :: ')[-1].startswith('block '):
+            return set()
+        out.add(fn)
+    return out
+
+
 def aid_renames_from(unit, diags):
     """E0425 `cannot find value X` inside a proof aid, for which the compiler suggests `self.X`: {X: 'self.X'}"""
     out = {}
@@ -415,6 +432,7 @@ def aid_renames_from(unit, diags):
 
 AID_RENAMES = {}
 INLINE_FLIP = {}
+SKIP_BLOCKS = {}
 
 
 def build(name, inline=()):
@@ -423,6 +441,7 @@ def build(name, inline=()):
     unit.tmpl_props = {}
     unit.aid_renames = dict(AID_RENAMES.get(name, {}))
     unit.inline_flip = INLINE_FLIP.get(name, False)
+    unit.skip_blocks = set(SKIP_BLOCKS.get(name, ()))
     extract.process_template(unit, os.path.join(CONTRACTS, name + '.vrs'), PRELUDE)
     # per-lemma property tags: `proof fn name(..) //#C10,C02`
     for c in unit.chunks:
@@ -443,6 +462,7 @@ def build_late(name, inline=(), drop_aids=(), late=True):
     unit.late_hints = late
     unit.aid_renames = dict(AID_RENAMES.get(name, {}))
     unit.inline_flip = INLINE_FLIP.get(name, False)
+    unit.skip_blocks = set(SKIP_BLOCKS.get(name, ()))
     unit.drop_aids = set(drop_aids)
     extract.process_template(unit, os.path.join(CONTRACTS, name + '.vrs'), PRELUDE)
     for c in unit.chunks:
@@ -464,6 +484,7 @@ def build_probe(name, inline=()):
     unit.inline_names = set(inline)
     unit.aid_renames = dict(AID_RENAMES.get(name, {}))
     unit.inline_flip = INLINE_FLIP.get(name, False)
+    unit.skip_blocks = set(SKIP_BLOCKS.get(name, ()))
     extract.process_template(unit, os.path.join(CONTRACTS, name + '.vrs'), PRELUDE)
     data = unit.finish()
     return unit, data
@@ -486,6 +507,11 @@ def run_unit(name, tier, want_probe=True):
                 # an inlined helper whose receiver binding has the wrong reference depth (the receiver variable was taken to
                 # hold a reference but names a place, or the other way round): the other reading is tried once
                 INLINE_FLIP[name] = True
+                unit, data = build(name, inline)
+                continue
+            sk = blocks_that_do_not_compile(unit, pre['diags'])
+            if sk and not sk <= set(SKIP_BLOCKS.get(name, ())):
+                SKIP_BLOCKS[name] = set(SKIP_BLOCKS.get(name, ())) | sk
                 unit, data = build(name, inline)
                 continue
             rn = aid_renames_from(unit, pre['diags'])
